@@ -29,6 +29,7 @@ type Contract struct {
 	Fn      *FuncInfo
 	BindErr string
 	Pos     string
+	Iface   bool // contract of an interface method (assumed, not verified)
 }
 
 func (c *Contract) Has(kind string, lit int) bool {
@@ -252,7 +253,7 @@ func splitTopLevel(s string, sep byte) []string {
 }
 
 var specWords = map[string]string{
-	"old": "spec_old", "entry": "spec_entry", "has": "spec_has", "fresh": "spec_fresh",
+	"old": "spec_old", "entry": "spec_entry", "has": "spec_has", "fresh": "spec_fresh", "eq": "spec_eq",
 }
 
 // desugar rewrites the clause language (forall/exists/==>/<==>/old/has/...) into type-checkable Go.
